@@ -49,6 +49,7 @@ type clientModel struct {
 	OnConfigEnter   func() // called right after the client entered the configuration phase (1.20.2+)
 	// online mode
 	Online *onlineCreds
+	crypt  *cryptConn
 }
 
 func (c *clientModel) send(p proto.Packet) error {
@@ -76,7 +77,8 @@ func (c *clientModel) Connect() {
 	cl, gate := w.r.Pipe(fmt.Sprintf("client%d", c.idx), fmt.Sprintf("gate<client%d", c.idx),
 		simnet.Options{Seg: w.seg, AddrA: simnet.TCP(c.IP, 40000+c.idx), AddrB: simnet.TCP("10.0.0.1", 25565)})
 	c.conn = cl
-	c.wire = newWireEnd(cl, proto.ClientBound, c.Prot, &w.seq)
+	c.crypt = &cryptConn{Conn: cl}
+	c.wire = newWireEnd(c.crypt, proto.ClientBound, c.Prot, &w.seq)
 	w.connN++
 	name := fmt.Sprintf("handleconn%d", c.idx)
 	w.s.GoNamed(name, func() { w.p.HandleConn(gate) })
